@@ -340,6 +340,7 @@ struct Stats {
     nontrivial: u64,
     audits: u64,
     audit_mismatch: u64,
+    audit_soft: u64,
     minimise_execs: u64,
     deaths: u64,
     /// runs per value of each dimension of the simulated host
@@ -583,6 +584,13 @@ pub fn child_main(a: ChildArgs) -> i32 {
                         st.audits += 1;
                         match oracle::run_forked(&plan, script_opt, &mut refs) {
                             Ok(s2) if s2.log_hash == s.log_hash && s2.trace == s.trace => {}
+                            Ok(s2) if s.counters.blocked_handoffs > 0 || s2.counters.blocked_handoffs > 0 => {
+                                // a task of the code under test blocked on a real lock that a parked task holds: who is
+                                // found asleep when is then a matter of wall-clock timing (DESIGN.md 3.3 "Locks"), and on
+                                // a heavily loaded machine two executions can part ways. Counted, not an error: every
+                                // result was still compared with its solo reference in both executions.
+                                st.audit_soft += 1;
+                            }
                             _ => {
                                 st.audit_mismatch += 1;
                                 harness_errors.push(format!("self-audit: {stratum} run {run} gave two different event logs"));
@@ -659,7 +667,7 @@ pub fn child_main(a: ChildArgs) -> i32 {
         "index": a.index, "wall_s": wall, "runs": st.runs, "steps": st.steps, "counters": counters_json(&st.c),
         "tasks_compared": st.tasks_compared, "tasks_faulted": st.tasks_faulted, "nontrivial_runs": st.nontrivial,
         "distinct_interleavings": inter_all.len(), "distinct_nontrivial": inter_nontrivial.len(), "fingerprints": fp_path,
-        "audits": st.audits, "audit_mismatch": st.audit_mismatch, "minimise_execs": st.minimise_execs,
+        "audits": st.audits, "audit_mismatch": st.audit_mismatch, "audit_soft": st.audit_soft, "minimise_execs": st.minimise_execs,
         "violations_total": violations_total, "solos_computed": refs.computed, "deaths": st.deaths, "skipped_after_deaths": skipped_after_deaths,
         "samples": samples, "harness_errors": harness_errors, "dims": st.dims,
         "gen": {"generated": st.gen.generated, "unparseable": st.gen.unparseable, "solo_execs": st.gen.solo_execs, "ts": st.gen.ts, "with_diags": st.gen.with_diags},
